@@ -18,7 +18,7 @@ SPEC_FORMS = {"old", "forall", "exists", "implies", "result", "unfold", "iff", "
               "count", "raised", "fresh_const", "pw2", "cls_name", "str_contains", "dyn_float", "to_dyn", "let",
               "map_has", "seq_contains", "str_to_int", "int_to_str", "d_int", "d_float", "d_list", "d_chars", "d_is_int",
               "d_is_float", "d_is_list", "d_is_str", "d_is_dict", "d_is_none", "bitlen", "d_mk_list", "d_mk_str", "d_mk_float",
-              "d_mk_int", "d_mk_dict_empty", "d_set", "size", "d_absent", "fn_name", "effect_count", "effect_arg", "effect_recv", "effect_index", "world", "effect_result"}
+              "d_mk_int", "d_mk_dict_empty", "d_set", "size", "d_absent", "fn_name", "effect_count", "effect_arg", "effect_recv", "effect_index", "world", "effect_result", "empty_options"}
 
 
 class EvalMixin:
@@ -871,7 +871,9 @@ class EvalMixin:
         return Z(t, z3.Concat(za.e, zb.e))
 
     def arr_concat(self, st, a, b):
-        if isinstance(a, Arr) and is_true(a.n == 0):
+        if isinstance(a, HeapRef) and st.obj(a).kind == "list" and not st.obj(a).items and isinstance(b, Arr):
+            return b
+        if isinstance(a, Arr) and (is_true(a.n == 0) or not self.feasible(st, a.n != 0)):
             if isinstance(b, Arr):
                 return b
             return self.seq_to_arr(st, b)
